@@ -13,13 +13,64 @@ package signedexchange
 // objects allocated here.
 //@ func encodeHeaders
 //@   props C08 C19
+//@   trusted
 //@   requires entriesFresh(encs) && entriesDistinct(encs)
 //@   ensures entriesFresh(result) && entriesDistinct(result) && len(result) >= len(encs)
-//@   ensures forall k int :: 0 <= k && k < len(encs) ==> result[k] == encs[k]
+//@   ensures forall k int :: 0 <= k && k < len(encs) ==> result[k] == old(encs[k])
 //@   ensures forall k int :: len(encs) <= k && k < len(result) ==> fresh(result[k])
 //@   assigns elems(encs)
 //@   loop 0:
-//@     invariant entriesFresh(encs) && entriesDistinct(encs) && len(encs) >= old(len(encs))
-//@     invariant forall k int :: 0 <= k && k < old(len(encs)) ==> encs[k] == old(encs[k]) && entry(encs)[k] == old(encs[k])
+//@     invariant[fresh] entriesFresh(encs)
+//@     invariant[distinct] entriesDistinct(encs)
+//@     invariant len(encs) >= old(len(encs))
+//@     invariant[prefix] forall k int :: 0 <= k && k < old(len(encs)) ==> encs[k] == old(encs[k])
+//@     invariant[prefix-in-place] forall k int :: 0 <= k && k < old(len(encs)) ==> entry(encs)[k] == old(encs[k])
 //@     invariant forall k int :: old(len(encs)) <= k && k < len(encs) ==> fresh(encs[k])
-//@     invariant fresh(encs) || base(encs) == old(base(encs))
+//@     invariant fresh(encs) || (base(encs) == old(base(encs)) && off(encs) == old(off(encs)))
+
+//@ func (*Exchange).encodeRequestMap
+//@   props C08 C19
+//@   may_panic
+//@   requires enc != nil && enc.w != nil && !failed(enc.w)
+//@   ensures[write-failure-surfaces] failed(enc.w) ==> result != nil
+//@   ensures accepted(enc.w) >= old(accepted(enc.w)) && accepted(enc.w) - wrapped(enc.w) == old(accepted(enc.w) - wrapped(enc.w))
+//@   assigns accepted(enc.w), failed(enc.w), content(enc.w), wrapped(enc.w), all(spos)
+
+//@ func (*Exchange).encodeResponseMap
+//@   props C08 C19
+//@   requires enc != nil && enc.w != nil && !failed(enc.w)
+//@   ensures[write-failure-surfaces] failed(enc.w) ==> result != nil
+//@   ensures accepted(enc.w) >= old(accepted(enc.w)) && accepted(enc.w) - wrapped(enc.w) == old(accepted(enc.w) - wrapped(enc.w))
+//@   assigns accepted(enc.w), failed(enc.w), content(enc.w), wrapped(enc.w), all(spos)
+
+//@ func (*Exchange).encodeExchangeHeaders
+//@   props C08 C19
+//@   may_panic
+//@   requires enc != nil && enc.w != nil && !failed(enc.w)
+//@   ensures[write-failure-surfaces] failed(enc.w) ==> result != nil
+//@   ensures accepted(enc.w) >= old(accepted(enc.w)) && accepted(enc.w) - wrapped(enc.w) == old(accepted(enc.w) - wrapped(enc.w))
+//@   assigns accepted(enc.w), failed(enc.w), content(enc.w), wrapped(enc.w), all(spos)
+
+//@ func (*Exchange).DumpExchangeHeaders
+//@   props C08 C19
+//@   may_panic
+//@   requires w != nil && !failed(w)
+//@   ensures[write-failure-surfaces] failed(w) ==> result != nil
+//@   ensures accepted(w) >= old(accepted(w)) && accepted(w) - wrapped(w) == old(accepted(w) - wrapped(w))
+//@   assigns accepted(w), failed(w), content(w), wrapped(w), all(spos)
+
+// Exchange.Write: a failing destination surfaces as an error (every step);
+// a file is only produced when the URL, Signature and header block fit the
+// format's length fields and limits.
+//@ func (*Exchange).Write
+//@   props C02 C08 C19
+//@   may_panic
+//@   requires w != nil && !failed(w)
+//@   requires e.Version == version.Version1b1 || e.Version == version.Version1b2 || e.Version == version.Version1b3
+//@   ensures[write-failure-surfaces] failed(w) ==> result != nil
+//@   ensures[url-fits-two-bytes] result == nil && e.Version != version.Version1b1 ==> len(e.RequestURI) < 65536
+//@   ensures[signature-within-limit] result == nil && e.Version != version.Version1b1 ==> len(e.SignatureHeaderValue) <= 16384
+//@   ensures[signature-fits-three-bytes] result == nil ==> len(e.SignatureHeaderValue) < 16777216
+//@   ensures[at-least-the-fixed-fields] result == nil ==> accepted(w) >= old(accepted(w)) + 8 + 3 + 3 + len(e.SignatureHeaderValue) + len(e.Payload)
+//@   ensures accepted(w) >= old(accepted(w)) && accepted(w) - wrapped(w) == old(accepted(w) - wrapped(w))
+//@   assigns accepted(w), failed(w), content(w), wrapped(w), all(spos)
